@@ -325,9 +325,25 @@ def vector_cases(d: tuple) -> Iterator[tuple[str, str]]:
                         if want_ctor == OK:
                             want_ctor = verdict(slot, slot_wrong)
                 tag = f"{vec(d)}<-vec:{sysname}:{''.join(combo)}"
-                if combo[0] != "g":
+                lead = "".join(combo).lstrip("z")
+                if lead == "" and not dimless:
+                    # all components zero: zero matches anything, so the vector passes every gate
+                    # (as argument and as result), whatever dimension its zeros were declared with
+                    try:
+                        qv = QuantityVector(comps, cs)
+                    except (UnitsError, TypeError) as ex:
+                        yield tag + "|ctor", f"zero vector refused at construction: {short(ex)}"
+                        continue
+                    yield tag + "|ctor", ""
+                    yield tag + "|gate-zero", expect(OK, call_input(D, qv))
+                    yield tag + "|gate-zero-other", expect(OK, call_input(dim_expr(wrongv), qv))
+                    yield tag + "|result-zero", expect(OK, call_output(D, qv), must_name=None)
+                    continue
+                if not lead.startswith("g") or CoordinateSystem.is_angle_component(st, len(combo) -
+                        len(lead)):
                     continue  # the vector's own dimension is taken from its first non-zero
-                    # component; cases led by a wrong or zero component are ambiguous by design
+                    # component; cases led by a wrong component (or by an angle slot) are
+                    # ambiguous by design
                 try:
                     qv = QuantityVector(comps, cs)
                     got = OK
